@@ -9,7 +9,7 @@ use std::time::Duration;
 pub fn commands() -> Vec<&'static str> {
     vec![
         "get k", "get-safe k", "set k v1", "set-safe k 9 s1", "set-safe k 0 s0", "remove k", "increment c", "watch k", "unwatch k", "unwatch-all", "keys", "arbiter",
-        "resolve 5 t k 1 r1", "create-db d2 tok2", "create-user bob bt", "set-permissions bob rw k*", "snapshot false t", "use-db t tok", "cluster-state", "metrics-state",
+        "resolve 5 t k 1 r1", "create-db d2 tok2", "create-user bob bt", "set-permissions bob rw k*", "snapshot false t", "snapshot false t|$admin", "use-db t tok", "cluster-state", "metrics-state",
         "debug pending-ops", "list-commands",
     ]
 }
